@@ -27,6 +27,7 @@ Definition key_size (num wt : N) : N := gen_key_size_aux 5 (gen_key_word num wt)
 Definition as_z (v : val) : Z := match v with VInt z => z | VBool true => 1%Z | _ => 0%Z end.
 Definition as_u64 (v : val) : N := z2u64 (as_z v).        (* uint64(x): sign extension *)
 Definition as_u32 (v : val) : N := z2u32 (as_z v).        (* uint32(x) *)
+Definition as_i32_u64 (v : val) : N := z2u64 (wrap32 (as_z v)).   (* uint64(x) for an int32 variable x *)
 Definition as_bool (v : val) : bool := match v with VBool b => b | VInt z => negb (z =? 0)%Z | _ => false end.
 Definition as_bits (v : val) : N := match v with VBits n => n | _ => 0 end.
 Definition as_bytes (v : val) : list byte := match v with VBytes l => l | _ => [] end.
@@ -59,7 +60,8 @@ Definition scalar_payload (k : kind) (v : val) : list byte :=
 Definition scalar_size (k : kind) (v : val) : N :=
   match k with
   | KInt32 | KInt64 | KEnum | KUint32 | KUint64 => Sov (as_u64 v)
-  | KSint32 | KSint64 => Soz (as_u64 v)                        (* Soz(uint64(e)) *)
+  | KSint32 => Soz (as_i32_u64 v)                              (* Soz(uint64(e)), e int32 *)
+  | KSint64 => Soz (as_u64 v)                                  (* Soz(uint64(e)) *)
   | KBool => 1
   | KFixed32 | KSfixed32 | KFloat => 4
   | KFixed64 | KSfixed64 | KDouble => 8
